@@ -446,6 +446,53 @@ class Analyzer:
         return res
 
 
+SIM_LOCS = ("SIMU", "GAUSFAC", "FACIES")
+RAW_ITEM_ACCESSORS = ("getFromLocator", "setFromLocator", "getLocVariable", "setLocVariable", "updLocVariable")
+
+
+def s7(prog, chk):
+    """S7 - one layout for the simulation columns.  The columns of the SIMU / GAUSFAC / FACIES locators hold one value per
+    (simulation, variable, GRF); their item number is Db::getSimRank(isimu, ivar, icase, nbsimu, nvar) for every reader
+    (Db::getSimvar and its callers: conditioning of the turning bands, Rule::gaus2facData).  A per-sample accessor addressing
+    one of these locators with a raw item number must obtain that number from Db::getSimRank: an item computed by another
+    formula reads / writes the column of another (simulation, GRF) as soon as both counts exceed one."""
+    from e1_paths import single_def
+    n = 0
+    for f in sorted(prog.funcs, key=lambda x: (x.file, x.line)):
+        if f.body is None:
+            continue
+        for c in f.calls():
+            if c["k"] != "MCall" or (c.get("callee") or "").split("::")[-1] not in RAW_ITEM_ACCESSORS or not (c.get("cls") or "").startswith("Db"):
+                continue
+            a = call_args(c)
+            if len(a) < 3 or a[0] is None or a[2] is None or show(a[0]).split("::")[-1] not in SIM_LOCS:
+                continue
+            item = a[2]
+            while item["k"] == "Cast":
+                item = item["c"][0]
+            ok = False
+            src = item
+            if item["k"] == "DeclRefExpr":
+                dfs = [x for x in f.walk() if (x["k"] == "VarDecl" and x.get("d") == item.get("d") and x.get("c")) or
+                       (x["k"] == "Assign" and x["c"][0] is not None and x["c"][0]["k"] == "DeclRefExpr" and x["c"][0].get("d") == item.get("d"))]
+                srcs = [(x["c"][0] if x["k"] == "VarDecl" else x["c"][1]) for x in dfs]
+                ok = bool(srcs) and all(s_ is not None and any(y["k"] in CALL_KINDS and (y.get("callee") or "").endswith("getSimRank") for y in walk(s_)) for s_ in srcs)
+                src = srcs[0] if srcs else item
+            else:
+                ok = any(y["k"] in CALL_KINDS and (y.get("callee") or "").endswith("getSimRank") for y in walk(item))
+            if not ok and item["k"] in ("IntLit",):
+                continue
+            n += 1
+            chk.analysed(f)
+            short = c["callee"].split("::")[-1]
+            chk.ob("S7", "%s: item of %s passed to %s comes from Db::getSimRank" % (f.name, show(a[0]), short), f.loc(c), ok,
+                   detail=None if ok else "the item `%s` = `%s` is not computed by Db::getSimRank(isimu, ivar, icase, nbsimu, nvar), the layout every "
+                   "reader of the simulation columns (Db::getSimvar) uses: with several simulations AND several variables / GRFs the value lands in "
+                   "the column of another (simulation, GRF)" % (show(item), show(src)[:60]),
+                   key="S7|%s|%s" % (f.name, show(a[0])))
+    chk.floor("S7", n, 3)
+
+
 def main(tier):
     chk = Check("C13", tier,
                 "Static seeding and indexing discipline only: every function taking a seed and every class storing one sets the "
@@ -618,6 +665,9 @@ def main(tier):
     import c05_skip
     c05_skip.rule_d(prog, chk, 0, rule="S5", only_files=("src/Simulation/", "src/Core/simtub", "src/Gibbs/", "src/LithoRule/"))
     c05_skip.positive_control(chk, "S5", tier)
+    # S6: a rank of the target data base never indexes the data (conditioning reads the datum that coincides with the target)
+    c05_skip.rank_owner_rule(prog, chk, "S6", ("src/Simulation/", "src/Core/simtub", "src/Gibbs/", "src/LithoRule/"), 20)
+    s7(prog, chk)
     for k in sorted(an.assumed):
         chk.assumptions.append("draw %s in %s treated as seeded: %s" % (k[1], k[0], ASSUMED_SEEDED[k]))
     return chk.finish()
